@@ -103,6 +103,52 @@ def sweep(tier, seed=0):
                     break
             if e2e_fail >= 4 or time.time() - t0 > budget:
                 break
+        # integer-list indexers, exhaustively for tiny axes; point-wise (vindex) selection with shared indexer arrays
+        if e2e_fail == 0:
+            for n in (2, 3) if tier == "quick" else (2, 3, 4):
+                x = np.arange(n) * 10 + 1
+                for ch in [(n,), (1,) * n] + ([(1, n - 1)] if n > 2 else []):
+                    d = da.from_array(x, chunks=(ch,))
+                    for ln in range(1, n + 2):
+                        for ix in itertools.product(range(-n, n), repeat=ln):
+                            cases += 1
+                            want = x[list(ix)]
+                            try:
+                                r = d[list(ix)]
+                                got = r.compute()
+                                msg = None if (np.array_equal(got, want) and r.shape == want.shape) else f"dask gives {got.tolist()}, NumPy gives {want.tolist()}"
+                            except Exception as e:  # noqa
+                                msg = f"{type(e).__name__}: {e}"
+                            if msg:
+                                fails.append(rtc.Failure("Array.__getitem__", {"n": n, "chunks": ch, "index": list(ix)}, "ensures", "C20-equals-numpy", msg))
+                                e2e_fail += 1
+                                break
+                        if e2e_fail:
+                            break
+                    if e2e_fail:
+                        break
+                if e2e_fail:
+                    break
+            x2 = np.arange(40).reshape(5, 8)
+            for ch in [((5,), (8,)), ((2, 3), (3, 5)), ((1,) * 5, (4, 4))]:
+                d2 = da.from_array(x2, chunks=ch)
+                for pts in [[-1, -2, 0, 3], [0, 1], [-5, 4, -1], [2, 2, 2]]:
+                    for shared in (True, False):
+                        cases += 1
+                        i0 = np.array(pts)
+                        i1 = i0 if shared else np.array(pts)
+                        before = i0.copy()
+                        want = x2[np.array(pts), np.array(pts)]
+                        try:
+                            got = d2.vindex[i0, i1].compute()
+                            msg = None if np.array_equal(got, want) else f"vindex gives {got.tolist()}, NumPy point selection gives {want.tolist()}"
+                            if msg is None and not np.array_equal(i0, before):
+                                msg = f"vindex modified the caller's indexer array: {before.tolist()} -> {i0.tolist()}"
+                        except Exception as e:  # noqa
+                            msg = f"{type(e).__name__}: {e}"
+                        if msg:
+                            fails.append(rtc.Failure("Array.vindex", {"chunks": ch, "points": pts, "same_array_for_both_axes": shared}, "ensures", "C20-vindex-equals-numpy", msg))
+                            e2e_fail += 1
         # 2-D combinations
         if e2e_fail == 0:
             x = np.arange(12).reshape(3, 4)
